@@ -105,7 +105,7 @@ section paris
 open SkNet.Paris SkNet.Agg
 variable {α : Type} [Add α] [Mul α] [Div α] [OfNat α 0] [OfNat α 1] [OfNat α 2] [LT α] [DecidableLT α] [BEq α]
 
-omit [Add α] [Mul α] [Div α] [OfNat α 1] [OfNat α 2] [LT α] [DecidableLT α] [BEq α] in
+omit [Mul α] [Div α] [OfNat α 1] [OfNat α 2] [LT α] [DecidableLT α] [BEq α] in
 theorem pinv_init (csr : List (List (Nat × α))) (outW inW : List α) :
     PInv csr.length (AggGraph.init csr outW inW) [] [] (liveInit (List.replicate csr.length 1)) := by
   have hsz : (AggGraph.init csr outW inW).sizes = (List.range csr.length).map fun i => (i, 1) := rfl
